@@ -679,6 +679,9 @@ func (e *FnExec) lookup(st *State, x *ssa.Lookup) {
 		if val.Sort == "Int" || val.Sort == "Bool" || val.Sort == StrSort {
 			e.inputs = append(e.inputs, NamedTerm{fmt.Sprintf("lookup%d.val", e.nLookups), val, typeKey(t.Elem())})
 		}
+		if val.Sort == "Iface" {
+			e.inputs = append(e.inputs, NamedTerm{fmt.Sprintf("typeid(lookup%d.val)", e.nLookups), ITag(val), "int"})
+		}
 		if k.Sort == "Int" || k.Sort == StrSort {
 			e.inputs = append(e.inputs, NamedTerm{fmt.Sprintf("lookup%d.key", e.nLookups), k, typeKey(t.Key())})
 		}
